@@ -16,21 +16,45 @@ MAX_BLOCKS = 400
 MAX_INLINES = 120
 
 
-def _remap(obj, off_l, off_b):
-    """deep copy with locals shifted by off_l (places and index projections)"""
+def _remap(obj, off_l, off_b, same=None):
+    """deep copy with locals shifted by off_l (places and index projections); `same` maps callee locals that are the
+    caller's own locals (a `self` handed on as `&mut *self`) to those"""
+    same = same or {}
     if isinstance(obj, dict):
         if "l" in obj and "p" in obj and isinstance(obj["l"], int) and isinstance(obj["p"], list):
-            return {"l": obj["l"] + off_l, "p": [_remap(x, off_l, off_b) for x in obj["p"]]}
+            return {"l": same.get(obj["l"], obj["l"] + off_l), "p": [_remap(x, off_l, off_b, same) for x in obj["p"]]}
         if "idx" in obj and isinstance(obj["idx"], int) and len(obj) == 1:
-            return {"idx": obj["idx"] + off_l}
-        return {k: _remap(v, off_l, off_b) for k, v in obj.items()}
+            return {"idx": same.get(obj["idx"], obj["idx"] + off_l)}
+        return {k: _remap(v, off_l, off_b, same) for k, v in obj.items()}
     if isinstance(obj, list):
-        return [_remap(x, off_l, off_b) for x in obj]
+        return [_remap(x, off_l, off_b, same) for x in obj]
     return obj
 
 
-def _remap_term(t, off_l, off_b):
-    t = _remap(t, off_l, off_b)
+def _self_alias(caller, block, operand):
+    """is the operand the caller's own `self` (local 1) handed on unchanged: `_1`, or a temporary `&mut *_1` / `&*_1`
+    made in the same block?"""
+    pl = operand.get("move") or operand.get("copy") if isinstance(operand, dict) else None
+    if not pl or pl["p"]:
+        return False
+    if pl["l"] == 1:
+        return True
+    for st in caller["blocks"][block]["s"]:
+        if st.get("a", {}).get("l") == pl["l"] and not st["a"]["p"]:
+            rv = st.get("rv") or {}
+            r = rv.get("ref")
+            if isinstance(r, dict) and r.get("l") == 1 and r.get("p") == ["*"]:
+                return True
+            u = rv.get("use")
+            if isinstance(u, dict):
+                q = u.get("move") or u.get("copy")
+                if q and q["l"] == 1 and not q["p"]:
+                    return True
+    return False
+
+
+def _remap_term(t, off_l, off_b, same=None):
+    t = _remap(t, off_l, off_b, same)
     if t.get("t") is not None and t["k"] in ("goto", "call", "drop", "assert"):
         t["t"] = t["t"] + off_b
     if t["k"] == "switch":
@@ -86,13 +110,19 @@ def inline_new_functions(raws):
                 off_b = len(caller["blocks"])
                 caller["locals"].extend(copy.deepcopy(callee["locals"]))
                 ln = t.get("ln")
+                same = {}
+                caller_is_method = caller.get("argc", 0) >= 1 and "self" == (caller["locals"][1].get("n") if len(caller["locals"]) > 1 else None)
                 for k, a in enumerate(t["args"]):
+                    if k == 0 and caller_is_method and _self_alias(caller, i, a) and \
+                            callee["locals"][1].get("t") == caller["locals"][1].get("t"):
+                        same[1] = 1         # the helper's self is the caller's self
+                        continue
                     caller["blocks"][i]["s"].append({"a": {"l": off_l + k + 1, "p": []}, "rv": {"use": a}, "ln": ln})
                 cont = t["t"]
                 dest = t["dest"]
                 for bb in callee["blocks"]:
-                    nb = {"s": [_remap(x, off_l, off_b) for x in bb["s"]], "cleanup": bb.get("cleanup", False),
-                          "term": _remap_term(bb["term"], off_l, off_b)}
+                    nb = {"s": [_remap(x, off_l, off_b, same) for x in bb["s"]], "cleanup": bb.get("cleanup", False),
+                          "term": _remap_term(bb["term"], off_l, off_b, same)}
                     if nb["term"]["k"] == "return":
                         nb["s"].append({"a": dest, "rv": {"use": {"move": {"l": off_l, "p": []}}}, "ln": ln})
                         nb["term"] = {"k": "goto", "t": cont, "ln": ln} if cont is not None else {"k": "unreachable", "ln": ln}
